@@ -603,6 +603,7 @@ func first(a, _ []byte) []byte { return a }
 //@   opt extent on
 //@   requires WF1in_alpha(t)
 //@   ensures[pure] frame()
+//@   ensures[arg_bytes_unchanged] sameBytes(key, 0, blen(key.obj))
 //@   loop 1 (depth)
 //@     invariant 0 <= depth && depth <= len(keyS)
 //@     invariant liveRef(n)
@@ -634,6 +635,7 @@ func first(a, _ []byte) []byte { return a }
 //@   ensures[wf] WF1_alpha(t)
 //@   ensures[size] t.size == old(t.size) - ite(result, 1, 0)
 //@   ensures[noop_frame] implies(!result, frame())
+//@   ensures[arg_bytes_unchanged] sameBytes(key, 0, blen(key.obj))
 //@   loop 1 (depth)
 //@     invariant 0 <= depth && depth <= len(keyS)
 //@     invariant n.pointer == (*ref).pointer && n.tag == (*ref).tag
@@ -730,6 +732,9 @@ func first(a, _ []byte) []byte { return a }
 //@   requires WF1in_alpha(t) && sizeSane(t)
 //@   assume_at_call minimum : HeapOKN() && LinkedLive()
 //@   ensures[size_accounting] t.size == old(t.size) + calls("Insert$1")
+//@   ensures[overwrite_only_value] implies(calls("Insert$1") == 0, frameExcept("alphaLeafNode.value"))
+//@   ensures[arg_bytes_unchanged] sameBytes(key, 0, blen(key.obj))
+//@   ensures[key_owned] forallref(o, implies(fresh(o) && atype(o) == leafT(), fresh(as(alphaLeafNode, o).key.obj)))
 //@   ensures[wf] WF1_alpha(t)
 //@   loop 1 (depth)
 //@     invariant 0 <= depth && depth <= len(keyS)
@@ -745,6 +750,7 @@ func first(a, _ []byte) []byte { return a }
 //@   requires WF1in_$KIND(t) && sizeSane(t)
 //@   assume_at_call minimum : HeapOKN() && LinkedLive()
 //@   ensures[size_accounting] t.size == old(t.size) + calls("Insert$1")
+//@   ensures[overwrite_only_value] implies(calls("Insert$1") == 0, frameExcept("$KINDLeafNode.value"))
 //@   ensures[wf] WF1_$KIND(t)
 //@   loop 1 (depth)
 //@     invariant 0 <= depth && depth <= len(keyS)
